@@ -186,6 +186,11 @@ def run(ctx):
                         res.unknown("M-DIAG", f, norm(r), name, "the matrix comes from a helper whose handling of the diagonal is not decided", loc(v.fi, r))
                         continue
                     res.check(ok, "M-DIAG", f, norm(r), name, "an adjacency matrix is returned without its diagonal having been cleared (B B^T has the node degrees on the diagonal)", loc(v.fi, r))
+    with res.guard("G-GROUPBY in the snapshot builder"):
+        from ..lints import check_groupby_sorted
+
+        res.rules["G-GROUPBY"] = "records are grouped by time only after sorting by time (itertools.groupby merges consecutive items only)"
+        check_groupby_sorted(ctx, res, "TemporalHypergraph.subhypergraph")
     # ---- T-SNAP
     with res.guard("T-SNAP"):
         for d in ("linalg.temporal_adjacency_matrix", "linalg.temporal_adjacency_matrix_by_order"):
